@@ -513,10 +513,11 @@ const (
 	tMainsFirst
 	tRedefine
 	tBetween
+	tRepl
 	nTemplates
 )
 
-var tnames = []string{"one-object", "one-object-compiled", "defs-then-mains", "mains-compiled-before-defs", "redefine-between-runs", "mains-between-defs"}
+var tnames = []string{"one-object", "one-object-compiled", "defs-then-mains", "mains-compiled-before-defs", "redefine-between-runs", "mains-between-defs", "repl-one-form-per-object"}
 
 // play runs one history of the given template over program p (already renamed for this variant)
 func play(ctx *common.Ctx, p *program, tmpl int, order []int, compileMains bool, k int) *hist {
@@ -581,6 +582,31 @@ func play(ctx *common.Ctx, p *program, tmpl int, order []int, compileMains bool,
 				// a fresh reading of the main forms after the redefinition
 				h.load(10+r, p.mains)
 				h.run(10+r, false)
+			}
+		}
+	case tRepl:
+		// the way the REPL and load work: every form is read, compiled and evaluated on its own
+		cid := 0
+		one := func(f *node, isMain bool) {
+			h.load(cid, []*node{f})
+			if ctx.Rng.Chance(85) {
+				h.compile(cid)
+			}
+			h.run(cid, isMain)
+			cid++
+		}
+		for _, d := range defs {
+			one(d, false)
+		}
+		for _, m := range p.mains {
+			one(m, false)
+		}
+		for _, ds := range p.redefs {
+			for _, d := range ds {
+				one(d, false)
+			}
+			for _, m := range p.mains {
+				one(m, false)
 			}
 		}
 	case tBetween:
@@ -696,7 +722,7 @@ func Run(ctx *common.Ctx) {
 		}
 	}
 	ctx.Meta.DistinctNontrivial = len(distinct)
-	ctx.Meta.Rule = "programs of 2-5 functions over +,-,<,list,progn,if,emit with calls in argument position to functions of lower level and recursive calls (to any function, mutual recursion included) under (if (< n 1) ..); 0-2 rounds of redefinitions; 1-3 main forms; random definition order; six history templates over code objects (load, Code.Compile, Code.Eval k=1..5 times, definitions before/after/between the main forms, redefinition between runs, fresh re-reading); wrong argument counts in 7% of the calls; evaluations = evaluations of a code object; distinct = distinct histories up to the name prefix"
+	ctx.Meta.Rule = "programs of 2-5 functions over +,-,<,list,progn,if,emit with calls in argument position to functions of lower level and recursive calls (to any function, mutual recursion included) under (if (< n 1) ..); 0-2 rounds of redefinitions; 1-3 main forms; random definition order; seven history templates over code objects (one of them the REPL/load discipline: each form read, compiled and evaluated on its own) (load, Code.Compile, Code.Eval k=1..5 times, definitions before/after/between the main forms, redefinition between runs, fresh re-reading); wrong argument counts in 7% of the calls; evaluations = evaluations of a code object; distinct = distinct histories up to the name prefix"
 	header := "From Coq Require Import List ZArith String.\nFrom C08 Require Import Model Spec Corr.\nImport ListNotations.\nOpen Scope string_scope.\nOpen Scope list_scope.\n"
 	footer := "Definition res := Eval vm_compute in check_all cases.\nPrint res.\nDefinition gcount := Eval vm_compute in guard_count cases.\nPrint gcount.\nDefinition outside := Eval vm_compute in outside_count cases.\nPrint outside.\nDefinition deviations := Eval vm_compute in deviation_count cases.\nPrint deviations.\n"
 	ctx.WriteShards("cases", header, "case", footer, terms, descs, 16)
